@@ -67,8 +67,27 @@ def check(ctx):
     run.check(got == want, 'R16i', ft.where, ft.qualname, 'class -> type table %s' % sorted(got.items()),
               'the inferred type for some Python class is one that rejects values of that class: %s'
               % sorted(set(got.items()) ^ set(want.items())))
-    from sa.pattern import has_stmt as _hs
-    run.check(_hs("if len(_t) != 1:\n    return 'any'\nelse:\n    return _t.pop()", ft.node), 'R16i', ft.where, ft.qualname,
+    # exactly one type seen -> that type; none or several -> 'any'   (decided on the returns: whatever the spelling of the test)
+    from sa.model import norm_compare as _nc2
+    from sa.pattern import match_expr as _me2
+    rets_ = [r_ for r_ in _ast.walk(ctx.N(ft).node) if isinstance(r_, _ast.Return) and r_.value is not None]
+    seen_r = {}
+    for r_ in rets_:
+        one = None
+        cur = r_
+        while getattr(cur, '_parent', None) is not None and one is None:
+            par = cur._parent
+            if isinstance(par, _ast.If) and (any(cur is x for x in par.body) or any(cur is x for x in par.orelse)):
+                t_, pol_ = _nc2(par.test, any(cur is x for x in par.body))
+                if _me2('len(_t) == 1', t_) is not None:
+                    one = pol_
+                elif _me2('len(_t) != 1', t_) is not None:
+                    one = not pol_
+            cur = par
+        seen_r[one] = r_.value
+    okr = set(seen_r) == {True, False} and _me2('_t.pop()', seen_r[True]) is not None and \
+        isinstance(seen_r[False], _ast.Constant) and seen_r[False].value == 'any'
+    run.check(okr, 'R16i', ft.where, ft.qualname,
               "mixed or empty sample -> 'any'", 'a column with values of several types is declared with one of them')
     # 3b. the rows of an in-memory source go out through the Resource whose schema was inferred from them: Resource.iter(keyed=True)
     #     projects every row onto the inferred header list, so a later row with a key the first row lacks cannot carry a field the
@@ -108,23 +127,52 @@ def check(ctx):
     #     package descriptor wholesale, so the 'resources' key is taken out first (a replaced list no longer pairs with the streams)
     run.rule('UPK', "USER-METADATA: update_package removes 'resources' from the user's mapping before it updates the package descriptor "
                     'with it')
-    up = ctx.repo.func('dataflows.processors.update_package:update_package')
+    up0 = ctx.repo.func('dataflows.processors.update_package:update_package')
+    up = ctx.N(up0)         # helpers inlined (a `_without_resources(metadata)` helper), module constants folded
     import ast as _a3
     from sa.loader import own_nodes as _own
     from sa.model import u as _u3, where as _w3
     from sa.deps import pseudo as _p3
     inner = [x for x in up.node.body if isinstance(x, _a3.FunctionDef)]
-    ups = [c for f_ in inner for c in _a3.walk(f_) if isinstance(c, _a3.Call) and isinstance(c.func, _a3.Attribute) and c.func.attr == 'update'
-           and _u3(c.func.value).endswith('.descriptor') and len(c.args) == 1 and isinstance(c.args[0], _a3.Name)]
+    inner_n = []
+    for f_ in inner:
+        g_ = ctx.repo.func_of_node.get(id([x for x in up0.node.body if isinstance(x, _a3.FunctionDef) and x.name == f_.name][0]))
+        inner_n.append(ctx.N(g_).node if g_ is not None else f_)
+    ups = []
+    for f_ in inner_n:
+        once3 = {}
+        for a_ in _a3.walk(f_):
+            if isinstance(a_, _a3.Assign) and len(a_.targets) == 1 and isinstance(a_.targets[0], _a3.Name):
+                once3.setdefault(a_.targets[0].id, []).append(a_.value)
+        for c in _a3.walk(f_):
+            if isinstance(c, _a3.Call) and isinstance(c.func, _a3.Attribute) and c.func.attr == 'update' and len(c.args) == 1 \
+                    and isinstance(c.args[0], _a3.Name):
+                recv = c.func.value
+                if isinstance(recv, _a3.Name) and len(once3.get(recv.id, [])) == 1:
+                    recv = once3[recv.id][0]        # descriptor = package.pkg.descriptor
+                if _u3(recv).endswith('.descriptor'):
+                    ups.append(c)
     if len(ups) != 1:
         raise AnalysisError('update_package: descriptor.update(<mapping>) not found')
     mp = ups[0].args[0].id
     outer = [x for x in up.node.body if not isinstance(x, _a3.FunctionDef)]
-    removed = any((isinstance(x, _a3.Delete) and any(_u3(t) == "%s['resources']" % mp for t in x.targets)) or
-                  (isinstance(x, _a3.Call) and isinstance(x.func, _a3.Attribute) and x.func.attr == 'pop' and _p3(x.func.value) == mp
+    # names that stand for the same mapping object at factory level (props = props__i1)
+    same = {mp}
+    grew = True
+    while grew:
+        grew = False
+        for st_ in outer:
+            for x in _a3.walk(st_):
+                if isinstance(x, _a3.Assign) and len(x.targets) == 1 and isinstance(x.targets[0], _a3.Name) and isinstance(x.value, _a3.Name):
+                    if x.targets[0].id in same and x.value.id not in same:
+                        same.add(x.value.id)
+                        grew = True
+    removed = any((isinstance(x, _a3.Delete) and any(isinstance(t, _a3.Subscript) and _p3(t.value) in same and _u3(t.slice) == "'resources'"
+                                                     for t in x.targets)) or
+                  (isinstance(x, _a3.Call) and isinstance(x.func, _a3.Attribute) and x.func.attr == 'pop' and _p3(x.func.value) in same
                    and x.args and isinstance(x.args[0], _a3.Constant) and x.args[0].value == 'resources')
                   for st_ in outer for x in _a3.walk(st_))
-    filtered = any(isinstance(x, _a3.Assign) and _p3(x.targets[0]) == mp and isinstance(x.value, _a3.DictComp) and
+    filtered = any(isinstance(x, _a3.Assign) and _p3(x.targets[0]) in same and isinstance(x.value, _a3.DictComp) and
                    "!= 'resources'" in _u3(x.value) for st_ in outer for x in _a3.walk(st_))
     run.check(removed or filtered, 'UPK', _w3(ctx.repo, ups[0]), up.qualname, "del metadata['resources'] before descriptor.update(metadata)",
               "update_package(resources=...) replaces the package's resource list: descriptors and row streams no longer pair up")
